@@ -66,6 +66,25 @@ class TaggedBase(BaseException):
     pass
 
 
+def exc_class(name):
+    """an Exception subclass by name: harness classes, builtins, asyncio.*, trio.*, concurrent.futures.*"""
+    import builtins
+    import concurrent.futures
+    if name == "Tagged":
+        return Tagged
+    if name == "TaggedTimeout":
+        return TaggedTimeout
+    mod, _, attr = name.rpartition(".")
+    src = {"": builtins, "asyncio": asyncio, "trio": trio, "concurrent.futures": concurrent.futures}[mod]
+    cls = getattr(src, attr)
+    assert isinstance(cls, type) and issubclass(cls, Exception), name
+    return cls
+
+
+class TaggedTimeout(TimeoutError):
+    pass
+
+
 class Value:
     """a returned object with identity"""
 
@@ -89,9 +108,11 @@ def make_outcome(pid, out):
         OBJ[pid] = val
         return ("return", val)
     if kind == "exc":
-        cls = {"Tagged": Tagged, "ValueError": ValueError, "KeyError": KeyError, "OSError": OSError,
-               "StopIteration": RuntimeError, "AssertionError": AssertionError}.get(out.get("cls", "Tagged"), Tagged)
-        e = cls("payload %s fails" % pid)
+        cls = exc_class(out.get("cls", "Tagged"))
+        if issubclass(cls, BaseExceptionGroup):
+            e = cls("payload %s fails" % pid, [ValueError("inner of %s" % pid)])
+        else:
+            e = cls("payload %s fails" % pid)
         e.vh_pid = pid
         OBJ[pid] = e
         return ("raise", e)
@@ -117,6 +138,8 @@ class World:
         self.services = {}
         self.overlap = {"aio": 0, "trio": 0}
         self.overlap_seen = []
+        self.shared_pids = {}
+        self.shared_bodies = {}
 
     def runner(self, rid):
         if rid not in self.runners:
@@ -126,18 +149,34 @@ class World:
     # ------------------------------------------------------------ payload bodies
     def sync_section(self, fl, pid):
         """non-atomic enter/exit counter: two same-flavour coroutine payloads between checkpoints at once would show"""
-        if fl not in self.overlap:
-            return
-        self.overlap[fl] += 1
-        n = self.overlap[fl]
-        time.sleep(0)
-        if n != 1 or self.overlap[fl] != 1:
-            self.overlap_seen.append((fl, pid))
-        self.overlap[fl] -= 1
+        with self.section(fl, pid):
+            time.sleep(0)
 
-    def do_action(self, spec, act, rid):
+    def section(self, fl, pid):
+        """a checkpoint-free stretch of a coroutine payload of flavour `fl`; entering one while another
+        payload of the same flavour is inside its own (nested in the same thread, or in parallel on
+        another thread) is an overlap"""
+        world = self
+
+        class _Section:
+            def __enter__(self_):
+                if fl in world.overlap:
+                    world.overlap[fl] += 1
+                    self_.n = world.overlap[fl]
+                return self_
+
+            def __exit__(self_, *exc):
+                if fl in world.overlap:
+                    if self_.n != 1 or world.overlap[fl] != 1:
+                        world.overlap_seen.append((fl, pid))
+                    world.overlap[fl] -= 1
+                return False
+        return _Section()
+
+    def do_action(self, spec, act, rid, ctx=None):
         """actions that are the same for every flavour; returns ('raise'|'return', obj) to finish the body"""
         k = act[0]
+        ctx = ctx or spec["fl"]
         if k == "set":
             gate(act[1]).set()
         elif k == "barrier":
@@ -151,19 +190,56 @@ class World:
         elif k == "log":
             log("step", spec["pid"], what=act[1])
         elif k == "adopt":
-            self.adopt(act[1], rid, ctx=spec["fl"])
+            self.adopt(act[1], rid, ctx=ctx)
         elif k == "execute":
-            self.execute(act[1], rid, ctx=spec["fl"])
+            self.execute(act[1], rid, ctx=ctx)
         elif k == "shutdown":
-            log("shutdown-call", None, rid=rid, ctx=spec["fl"])
+            log("shutdown-call", None, rid=rid, ctx=ctx)
             self.runner(rid).shutdown()
             log("shutdown-return", None, rid=rid)
+        elif k == "via":
+            # perform the inner action from an unusual but legitimate calling context of a thread
+            # payload / outside thread: a worker thread of a private trio run, a private asyncio
+            # loop (directly or through its executor), a plain helper thread
+            how, inner = act[1], act[2]
+            call = functools.partial(self.do_action, spec, inner, rid, "%s/%s" % (ctx, how))
+            if how == "trio-to-thread":
+                async def main():
+                    await trio.to_thread.run_sync(call)
+                trio.run(main)
+            elif how == "aio-executor":
+                async def main():
+                    await asyncio.get_running_loop().run_in_executor(None, call)
+                asyncio.run(main())
+            elif how == "aio-direct":
+                async def main():
+                    call()
+                asyncio.run(main())
+            else:
+                th = threading.Thread(target=call, daemon=True)
+                th.start()
+                th.join(20)
         elif k == "end":
             return make_outcome(spec["pid"], act[1])
         return None
 
+    def shared_pid(self, key, default):
+        """payloads adopted as one shared callable take their identities in start order"""
+        if key is None:
+            return default
+        with LOCK:
+            q = self.shared_pids.get(key) or []
+            return q.pop(0) if q else default
+
     def body(self, spec, rid, args_expected=None):
-        pid, fl = spec["pid"], spec["fl"]
+        fl = spec["fl"]
+        key = spec.get("share")
+        if key is not None:
+            # one callable object for the whole group: adopting it k times must start it k times
+            with LOCK:
+                self.shared_pids.setdefault(key, []).append(spec["pid"])
+                if key in self.shared_bodies:
+                    return self.shared_bodies[key]
         script = spec.get("script", [["end", {"kind": "none"}]])
         cleanup = spec.get("cleanup", {})
         world = self
@@ -175,9 +251,22 @@ class World:
                 ok = list(args) == exp["args"] and kwargs == exp["kwargs"]
             return ok
 
+        if spec.get("callfail"):
+            # the *call* of the payload fails: nothing awaitable is ever produced
+            def payload(*args, **kwargs):
+                pid = world.shared_pid(key, spec["pid"])
+                log("start", pid, args_ok=check_args(args, kwargs), fl=fl)
+                r = make_outcome(pid, spec["out"])
+                log("body-end", pid, out=outkind(spec["out"]))
+                raise r[1]
+            payload.vh_pid = spec["pid"]
+            return payload
+
         if fl == "aio":
             async def payload(*args, **kwargs):
-                log("start", pid, args_ok=check_args(args, kwargs), fl="aio")
+                pid = world.shared_pid(key, spec["pid"])
+                with world.section("aio", pid):
+                    log("start", pid, args_ok=check_args(args, kwargs), fl="aio")
                 try:
                     for act in script:
                         world.sync_section("aio", pid)
@@ -194,8 +283,13 @@ class World:
                             while True:
                                 log("step", pid, what="beat")
                                 await asyncio.sleep(act[1] if len(act) > 1 else 0.01)
+                        elif act[0] == "offload":
+                            # from a worker thread of the loop's executor
+                            await asyncio.get_running_loop().run_in_executor(
+                                None, world.do_action, dict(spec, pid=pid), act[1], rid, "aio/offload")
                         else:
-                            r = world.do_action(spec, act, rid)
+                            with world.section("aio", pid):
+                                r = world.do_action(dict(spec, pid=pid), act, rid)
                             if r:
                                 log("body-end", pid, out=outkind(act[1]))
                                 if r[0] == "raise":
@@ -208,11 +302,11 @@ class World:
                         time.sleep(cleanup["sync"])
                     log("unwound", pid)
                     raise
-            payload.vh_pid = pid
-            return payload
-        if fl == "trio":
+        elif fl == "trio":
             async def payload(*args, **kwargs):
-                log("start", pid, args_ok=check_args(args, kwargs), fl="trio")
+                pid = world.shared_pid(key, spec["pid"])
+                with world.section("trio", pid):
+                    log("start", pid, args_ok=check_args(args, kwargs), fl="trio")
                 try:
                     for act in script:
                         world.sync_section("trio", pid)
@@ -229,8 +323,13 @@ class World:
                             while True:
                                 log("step", pid, what="beat")
                                 await trio.sleep(act[1] if len(act) > 1 else 0.01)
+                        elif act[0] == "offload":
+                            # from a worker thread of the runtime's own trio run
+                            await trio.to_thread.run_sync(
+                                world.do_action, dict(spec, pid=pid), act[1], rid, "trio/offload")
                         else:
-                            r = world.do_action(spec, act, rid)
+                            with world.section("trio", pid):
+                                r = world.do_action(dict(spec, pid=pid), act, rid)
                             if r:
                                 log("body-end", pid, out=outkind(act[1]))
                                 if r[0] == "raise":
@@ -246,30 +345,38 @@ class World:
                             await trio.sleep(cleanup["shielded"])
                     log("unwound", pid)
                     raise
-            payload.vh_pid = pid
-            return payload
+        else:
+            def payload(*args, **kwargs):
+                pid = world.shared_pid(key, spec["pid"])
+                log("start", pid, args_ok=check_args(args, kwargs), fl="thr")
+                for act in script:
+                    if act[0] == "sleep":
+                        time.sleep(act[1])
+                    elif act[0] == "wait":
+                        gate(act[1]).wait()
+                    elif act[0] == "forever":
+                        while True:
+                            time.sleep(act[1] if len(act) > 1 else 0.01)
+                    elif act[0] == "block":
+                        time.sleep(act[1])
+                    else:
+                        r = world.do_action(dict(spec, pid=pid), act, rid)
+                        if r:
+                            log("body-end", pid, out=outkind(act[1]))
+                            if r[0] == "raise":
+                                raise r[1]
+                            return r[1]
+                log("body-end", pid, out="none")
+        if spec.get("plainfn") and fl != "thr":
+            # a plain callable that hands back the awaitable (not a coroutine function)
+            inner = payload
 
-        def payload(*args, **kwargs):
-            log("start", pid, args_ok=check_args(args, kwargs), fl="thr")
-            for act in script:
-                if act[0] == "sleep":
-                    time.sleep(act[1])
-                elif act[0] == "wait":
-                    gate(act[1]).wait()
-                elif act[0] == "forever":
-                    while True:
-                        time.sleep(act[1] if len(act) > 1 else 0.01)
-                elif act[0] == "block":
-                    time.sleep(act[1])
-                else:
-                    r = world.do_action(spec, act, rid)
-                    if r:
-                        log("body-end", pid, out=outkind(act[1]))
-                        if r[0] == "raise":
-                            raise r[1]
-                        return r[1]
-            log("body-end", pid, out="none")
-        payload.vh_pid = pid
+            def payload(*args, **kwargs):
+                return inner(*args, **kwargs)
+        payload.vh_pid = spec["pid"]
+        if key is not None:
+            with LOCK:
+                payload = self.shared_bodies.setdefault(key, payload)
         return payload
 
     # ------------------------------------------------------------ operations
@@ -301,10 +408,17 @@ class World:
         body = self.body(spec, rid)
         fl = spec["fl"]
 
+        falsy = bool(spec.get("falsy_service"))
+
         @service(flavour=FLAV[fl])
         class Svc:
             def __init__(self):
                 pass
+
+            if falsy:
+                # a container-like service that is empty (hence falsy) when it is adopted
+                def __len__(self):
+                    return 0
             if fl == "thr":
                 def run(self):
                     return body()
@@ -335,6 +449,8 @@ class World:
                     self.services.pop(st[1], None)
                     gc.collect()
                     log("unit-drop", st[1])
+                elif k == "via":
+                    self.do_action({"pid": None, "fl": "outside"}, st, rid_default)
                 elif k == "set":
                     gate(st[1]).set()
                 elif k == "wait-gate":
@@ -373,7 +489,9 @@ class World:
                             log("accept-end", None, rid=rid, result=type(e).__name__, concurrent=True)
                     th = threading.Thread(target=other, daemon=True)
                     th.start()
-                    th.join(5)
+                    th.join(st[2] if len(st) > 2 else 1.0)
+                    if th.is_alive():
+                        log("accept-admitted", None, rid=rid, concurrent=True)
                 elif k == "threads":
                     # several controller scripts in parallel threads
                     ths = [threading.Thread(target=self.control, args=(sub, rid_default), daemon=True) for sub in st[1]]
